@@ -52,8 +52,8 @@ type Diag struct {
 
 // Module is one module location inside a package: what each finder reports there.
 type Module struct {
-	Sub   string           `json:"sub"`             // "" = package root
-	Deps  map[string][]Dep `json:"deps,omitempty"`  // finder id (as string) -> dependencies
+	Sub   string            `json:"sub"`             // "" = package root
+	Deps  map[string][]Dep  `json:"deps,omitempty"`  // finder id (as string) -> dependencies
 	Diags map[string][]Diag `json:"diags,omitempty"` // finder id -> diagnostics
 }
 
@@ -423,6 +423,57 @@ func (f *Finder) FindDependencies(fsys iofs.FS, subPath string, deps *sourcebund
 	return out
 }
 
+// TracerMode: "full" (default), "none" (no tracer at all) or "partial:<n>"
+// (a tracer in which the callbacks selected by the bits of n are left nil).
+func (h *Harness) Context(mode string) context.Context {
+	ctx := context.Background()
+	if mode == "none" {
+		return ctx
+	}
+	tr := h.Tracer()
+	if strings.HasPrefix(mode, "partial:") {
+		var n int
+		fmt.Sscanf(strings.TrimPrefix(mode, "partial:"), "%d", &n)
+		drop := func(bit int) bool { return n&(1<<bit) != 0 }
+		if drop(0) {
+			tr.RegistryPackageVersionsStart = nil
+		}
+		if drop(1) {
+			tr.RegistryPackageVersionsSuccess = nil
+		}
+		if drop(2) {
+			tr.RegistryPackageVersionsAlready = nil
+		}
+		if drop(3) {
+			tr.RegistryPackageSourceStart = nil
+		}
+		if drop(4) {
+			tr.RegistryPackageSourceSuccess = nil
+		}
+		if drop(5) {
+			tr.RegistryPackageSourceAlready = nil
+		}
+		if drop(6) {
+			tr.RemotePackageDownloadStart = nil
+		}
+		if drop(7) {
+			tr.RemotePackageDownloadSuccess = nil
+		}
+		if drop(8) {
+			tr.RemotePackageDownloadAlready = nil
+		}
+		if drop(9) {
+			tr.Diagnostics = nil
+		}
+		if drop(10) {
+			tr.RegistryPackageVersionsFailure = nil
+			tr.RegistryPackageSourceFailure = nil
+			tr.RemotePackageDownloadFailure = nil
+		}
+	}
+	return tr.OnContext(ctx)
+}
+
 // Tracer returns a BuildTracer that records every event in the harness log.
 func (h *Harness) Tracer() *sourcebundle.BuildTracer {
 	type ctxKey string
@@ -499,12 +550,12 @@ type CallResult struct {
 }
 
 type Run struct {
-	H       *Harness
-	Target  string
-	Builder *sourcebundle.Builder
-	Calls   []CallResult
-	Bundle  *sourcebundle.Bundle
-	CloseErr error
+	H          *Harness
+	Target     string
+	Builder    *sourcebundle.Builder
+	Calls      []CallResult
+	Bundle     *sourcebundle.Bundle
+	CloseErr   error
 	ClosePanic any
 }
 
@@ -694,7 +745,7 @@ type Expect struct {
 	Error      string // non-empty: the build must report an error (reason)
 	// per script call: the remote source the call resolves to ("" for errors)
 	CallSources []string
-	Ambiguous  bool // precedence-equal maxima with different real sources: several outcomes are acceptable
+	Ambiguous   bool // precedence-equal maxima with different real sources: several outcomes are acceptable
 }
 
 func (w World) remote(pkg string) *RemotePkg {
